@@ -4,6 +4,21 @@ import itertools
 import numpy as np
 
 from .. import core, fit_lib as fl, gemini_lib as gl
+from translator import nets as tn, tables
+
+
+def regen(ctx):
+    """regenerate Gen/Nets.lean (the straight-line NumPy code of _infer/_compute_grads, as the source says now);
+    Props/C03Gen.lean proves it equal to the hand models the C03 theorems are stated about"""
+    try:
+        data, text = tn.nets()
+    except (tables.TranslationFailure, SyntaxError, OSError) as e:
+        ctx.extra["translation_failure"] = f"nets: {e}"
+        return None
+    changed = core.write_if_changed(core.LEAN + "/GemVerif/Gen/Nets.lean", text)
+    ctx.translation = {"units": [f"{u['file']}::{u['class']}.{u['method']} -> Gen/Nets.lean::{name}" for name, u in data.items()],
+                       "regenerated": len(data), "identical_to_committed": not changed}
+    return data
 
 
 # ------------------------------------------------------------------ part A: _compute_grads vs the Lean model
@@ -264,6 +279,7 @@ def run(ctx):
                 "{adam,sgd} x batch sizes {None,1,2,n-1,n} x plain/mlcl-decorated, every captured optimiser call compared with "
                 "Richardson central differences of the regularised objective along random per-parameter directions; kinks "
                 "(ReLU, TV, OT, Douglas ties) detected by one-sided slopes and skipped; non-trivial = fit completed")
+    regen(ctx)
     ctx.do_prove()
     rs = np.random.RandomState(ctx.seed * 1009 + 3)
     lines, expect = corr_cases(ctx, rs, 6 if ctx.tier == "quick" else 60)
